@@ -45,6 +45,11 @@ PROGRAMS.update({
     "usernames3": {"goals": ["x", "_t10"],
                    "text": "x = 0\n_t10 = 1\nwhile true:\n    _t10, x = x, Normal(x + _u12, 1)\nend\n"},
 })
+PROGRAMS.update({
+    # the same categorical assignment text with a probability that each program fixes differently (or leaves symbolic)
+    "catA": {"goals": ["x", "x**2"], "text": "p = 1/4\nx = 0\nwhile true:\n    x = x + 1 {p} x + 3\nend\n"},
+    "catB": {"goals": ["x", "x**2"], "text": "p = 2/3\nx = 0\nwhile true:\n    x = x + 1 {p} x + 3\nend\n"},
+})
 OPTIONS = ["tc", "c2a", "exact"]
 OPTMAP = {"tc": "transform_categoricals", "c2a": "cond2arithm", "exact": "exact_func_moments"}
 
@@ -157,7 +162,12 @@ def main(tier, seed):
             need -= pairs
         else:
             rest.append(h)
-    sample = cover + rest[: (40 if quick else 600)] + predicted[: (25 if quick else 200)]
+    # directed: one option switched on, then two analyses (ordered pairs among the programs with categorical assignments)
+    catlike = [p for p in ("catA", "catB", "simul", "owncond") if p in PROGRAMS]
+    directed = [h for h in hists if len(h) == 3 and h[0]["a"] == "toggle" and h[1]["a"] == "analyze" and h[2]["a"] == "analyze"
+                and h[1]["p"] in catlike and h[2]["p"] in catlike and h[1]["p"] != h[2]["p"] and not any(a["collided"] for a in h)]
+    directed = [h for h in directed if {h[1]["p"], h[2]["p"]} & {"catA", "catB"}]
+    sample = cover + directed + [h for h in rest if h not in directed][: (40 if quick else 600)] + predicted[: (25 if quick else 200)]
     # ---- replay each behaviour in one real process
     jobs = []
     for i, h in enumerate(sample):
